@@ -1,16 +1,46 @@
-import Sucds.Proofs.Rank9Rank1
-import Sucds.Model.DArray
-/-! # C02 — DArray select (and optional rank/select0) (partial): the optional rank index of a DArray is the
-    Rank9 index, so `rank1`/`rank0` after `enable_rank` are proved for every configuration and argument.
-    Missing: the dense/sparse `select` (modelled; exercised by the correspondence incl. its inventories). -/
+import Sucds.Proofs.DArray
+import Sucds.Proofs.Rank9Full
+/-! # C02 — DArray select (and optional rank/select0) equals the plain bit sequence
+
+For every bit sequence (any mix of dense and sparse blocks, any size of the final partial block, any
+sub-block alignment — no bound), every index configuration, every build configuration and **every** argument:
+the model of `DArray` (`DArrayIndex::build` over ones, optionally over zeros, optional Rank9 index) never
+panics on the enabled operations and returns `select1(k)` = position of the k-th one (`None` iff
+`k ≥ ones`), after `enable_select0` the same for zeros, after `enable_rank` `access`/`rank1`/`rank0` = the
+true prefix counts with `None` iff the position exceeds the length; `num_ones` is the true count. The answers
+do not depend on which other indexes are enabled (the right-hand sides do not mention them). A disabled
+index answers with the documented panic (`expect`). -/
 namespace Sucds.C02
 open Sucds Sucds.Spec
-theorem rank1_after_enable_rank (c : Cfg) (bv : BV) (h : bv.Inv) (pos : Nat) :
-    ((DA.fromBV c bv).enableRank c).rank1 c pos = .ok (if pos ≤ bv.len then some (cnt bv.bitAt pos) else none) := by
-  simp only [DA.rank1, DA.enableRank, DA.fromBV]
-  exact R9Index.rank1_ok c bv h pos
-theorem rank0_after_enable_rank (c : Cfg) (bv : BV) (h : bv.Inv) (pos : Nat) :
-    ((DA.fromBV c bv).enableRank c).rank0 c pos = .ok (if pos ≤ bv.len then some (cnt (fun i => !bv.bitAt i) pos) else none) := by
-  simp only [DA.rank0, DA.enableRank, DA.fromBV]
-  exact R9Index.rank0_ok c bv h pos
+
+abbrev bitOf (bs : List Bool) : Nat → Bool := fun j => bs.getD j false
+
+def Statement : Prop :=
+  ∀ (c : Cfg) (bs : List Bool) (rank sel0 : Bool),
+    let x := DA.build c (BV.fromBits bs) rank sel0
+    (∀ k, x.select1 c k = .ok (sel (bitOf bs) bs.length k)) ∧
+    x.numOnes = cnt (bitOf bs) bs.length ∧ x.numBits = bs.length ∧
+    (∀ i, x.access i = .ok bs[i]?) ∧
+    (sel0 = true → ∀ k, x.select0 c k = .ok (sel (fun j => !bitOf bs j) bs.length k)) ∧
+    (rank = true → ∀ i, x.rank1 c i = .ok (if i ≤ bs.length then some (cnt (bitOf bs) i) else none)) ∧
+    (rank = true → ∀ i, x.rank0 c i = .ok (if i ≤ bs.length then some (i - cnt (bitOf bs) i) else none))
+
+theorem cnt_not (P : Nat → Bool) (i : Nat) : cnt (fun j => !P j) i = i - cnt P i := by
+  have := cnt_compl P i; omega
+
+theorem holds : Statement := by
+  intro c bs rank sel0
+  have hinv := (BV.fromBits_spec bs).1
+  have hlen : (BV.fromBits bs).len = bs.length := BV.fromBits_len bs
+  have hbit : (BV.fromBits bs).bitAt = bitOf bs := funext (fun j => BV.fromBits_bitAt bs j)
+  obtain ⟨h1, h2, h3, _, h5, h6, _, h8, h9, _⟩ := DA.build_answers c (BV.fromBits bs) hinv rank sel0
+  simp only [hlen, hbit] at h1 h2 h3 h5 h6 h8 h9
+  refine ⟨h1, h2, h3, ?_, h6, h8, ?_⟩
+  · intro i
+    rw [h5 i]
+    by_cases hi : i < bs.length
+    · simp [hi, bitOf, List.getD_eq_getElem?_getD, List.getElem?_eq_getElem hi]
+    · simp [hi, List.getElem?_eq_none (Nat.le_of_not_lt hi)]
+  · intro hr i
+    rw [h9 hr i, cnt_not]
 end Sucds.C02
